@@ -88,14 +88,40 @@ def dirtyAfter : Sql → Bool → Bool
 
 /-! ### invariants, written as functions of the fields they depend on (so that `simp` normalises them after updates) -/
 
-/-- lock bookkeeping recomputed from the recorded events (newest first): `(pre_transaction_lock, transaction_lock)` held -/
-def lockState : List Ev → Option (Bool × Bool)
-  | [] => some (false, false)
+/-- where a thread is in the lock protocol of `SQLiteProvider.acquire_lock` / `release_lock` -/
+inductive Phase
+  | idle      -- holds nothing
+  | hasPre    -- holds pre_transaction_lock, is about to take transaction_lock
+  | hasBoth   -- holds both, is about to release pre_transaction_lock
+  | hasTx     -- holds transaction_lock
+  deriving DecidableEq, Repr
+
+def Phase.step : Phase → LEv → Option Phase
+  | .idle, .preAcq => some .hasPre
+  | .hasPre, .acq => some .hasBoth
+  | .hasBoth, .preRel => some .hasTx
+  | .hasTx, .rel => some .idle
+  | _, _ => none
+
+/-- the phase reached by a chronological list of lock events (`none`: the protocol was violated) -/
+def Phase.run : Phase → List LEv → Option Phase
+  | ph, [] => some ph
+  | ph, e :: es => match ph.step e with
+    | some ph' => Phase.run ph' es
+    | none => none
+
+/-- lock bookkeeping recomputed from the recorded events (newest first) -/
+def lockState : List Ev → Option Phase
+  | [] => some .idle
   | .call _ _ _ :: t => lockState t
-  | .preAcquire :: t => match lockState t with | some (false, l) => some (true, l) | _ => none
-  | .acquire :: t => match lockState t with | some (p, false) => some (p, true) | _ => none
-  | .preRelease :: t => match lockState t with | some (true, l) => some (false, l) | _ => none
-  | .release :: t => match lockState t with | some (p, true) => some (p, false) | _ => none
+  | .preAcquire :: t => (lockState t).bind (Phase.step · .preAcq)
+  | .acquire :: t => (lockState t).bind (Phase.step · .acq)
+  | .preRelease :: t => (lockState t).bind (Phase.step · .preRel)
+  | .release :: t => (lockState t).bind (Phase.step · .rel)
+
+def phaseOfLock : Bool → Phase
+  | true => .hasTx
+  | false => .idle
 
 /-- accounting: the pooled connection is open; every other connection ever opened was closed exactly once -/
 def AccF (pc : Option Nat) (nc : Nat) (cl : List Nat) : Prop :=
@@ -104,7 +130,7 @@ def AccF (pc : Option Nat) (nc : Nat) (cl : List Nat) : Prop :=
 
 /-- lock discipline so far: no misuse, and the recorded lock events are consistent with the lock bits -/
 def WBF (tr : List Ev) (pre lock bad : Bool) : Prop :=
-  bad = false ∧ pre = false ∧ lockState tr = some (false, lock)
+  bad = false ∧ pre = false ∧ lockState tr = some (phaseOfLock lock)
 
 /-- `q`: "no DB-API call fails from now on, and `pool.pid` exists whenever `pool.con` does";
     `p`: "`pool.pid` exists" (the thread has completed a `_connect` before) -/
@@ -283,11 +309,11 @@ theorem spec_poolConnect (cf : Cfg) (q p : Bool) (s : St) (hG : G cf q p s) :
   unfold wp acquireLock; cases h : s.pre <;> cases h2 : s.lock <;> simp [h2]
 
 theorem WBF_release {tr pr b} (h : WBF tr pr true b) : WBF (Ev.release :: tr) pr false b := by
-  simp_all [WBF, lockState]
+  simp_all [WBF, lockState, phaseOfLock, Phase.step]
 
 theorem WBF_acquire {tr pr b} (h : WBF tr pr false b) :
     WBF (Ev.preRelease :: Ev.acquire :: Ev.preAcquire :: tr) false true b := by
-  simp_all [WBF, lockState]
+  simp_all [WBF, lockState, phaseOfLock, Phase.step]
 
 /-- everything of the cache object except `in_transaction` -/
 def CFr (c c' : Cache) : Prop :=
@@ -305,7 +331,7 @@ macro "mono_intro" : tactic =>
   `(tactic| (intro _ _; simp only [Fr3, CFr, PoolFr, RelPost, and_imp]; intros))
 
 /-- unfold the invariants to facts about fields and let `simp_all` finish -/
-macro "inv_simp" : tactic => `(tactic| simp_all [G, WBF, lockState, CFr, Fr3, PoolFr])
+macro "inv_simp" : tactic => `(tactic| simp_all [G, WBF, lockState, phaseOfLock, Phase.step, CFr, Fr3, PoolFr])
 
 /-- `SQLiteProvider.commit` / `.rollback`: whatever happens, the lock is free and `in_transaction` is False afterwards -/
 theorem spec_provCommit (cf : Cfg) (q p : Bool) (con : Nat) (s : St) (hG : G cf q p s) (hl : s.lock = s.cache.inTx) :
@@ -376,11 +402,11 @@ theorem spec_setTransactionMode (cf : Cfg) (q p : Bool) (con : Nat) (s : St) (hG
     obtain ⟨⟨h0, h1, h2, h3, h4⟩, hF1, hF2, hF3, hF4, hF5⟩ := quiet_facts hF
     cases himm : s.cache.immediate <;> cases hd : cf.ddl <;> cases hfk : s.fk <;>
       simp [setTransactionMode, conCursor, hin, himm, hd, hfk, hl, hpre, h0, h1, h2, h3, fkAfter, dirtyAfter] <;>
-      simp_all [G, WBF, lockState, CFr, Fr3]
+      simp_all [G, WBF, lockState, phaseOfLock, Phase.step, CFr, Fr3]
   | false =>
     cases himm : s.cache.immediate <;> cases hd : cf.ddl <;> cases hfk : s.fk <;>
       simp [setTransactionMode, conCursor, hin, himm, hd, hfk, hl, hpre, fkAfter, dirtyAfter] <;>
-      (repeat' split) <;> simp_all [G, WBF, lockState, CFr, Fr3]
+      (repeat' split) <;> simp_all [G, WBF, lockState, phaseOfLock, Phase.step, CFr, Fr3]
 
 theorem spec_baseRelease (cf : Cfg) (q p : Bool) (con : Nat) (s : St) (hG : G cf q p s) (hc : s.poolCon = some con)
     (hin : s.cache.inTx = false) (hl : s.lock = false) :
@@ -540,5 +566,373 @@ theorem spec_execTail (cf : Cfg) (q p : Bool) (con : Nat) (sql : Sql) (many : Bo
         · mono_intro2; simp_all [Inv, CInv, Keep, G]
       · simp only [hf2, Bool.false_eq_true, if_false]
         split <;> simp_all [Inv, CInv, Keep, G]
+
+/-- `db_session.immediate` is `immediate or ddl or serializable or not optimistic` -/
+def Cfg.WF (cf : Cfg) : Prop := cf.ddl = true → cf.immediate = true
+
+theorem spec_getCache (cf : Cfg) (q p : Bool) (s : St) (hwf : cf.WF) (hI : Inv cf q p s) :
+    wp (getCache cf)
+      (fun _ s' => Inv cf q p s' ∧ s'.hasCache = true ∧ (s.hasCache = true → s' = s) ∧
+                   (s.hasCache = false → s'.cache.conn = none ∧ s'.cache.inTx = false))
+      (fun _ _ => False) s := by
+  obtain ⟨hG, hl, htx, hcp, hdead, hdirty, hddl⟩ := hI
+  simp only [getCache, wp_bind, wp_getS, wp_ite, wp_modS, wp_pure]
+  cases hh : s.hasCache
+  · have hc := hdead hh
+    have hin : s.cache.inTx = false := by cases h : s.cache.inTx <;> simp_all
+    have hd : s.dirty = false := by cases h : s.dirty <;> simp_all
+    simp_all [Inv, CInv, G, Cfg.WF]
+  · simp_all [Inv, CInv, G]
+
+theorem spec_execNoFlush (cf : Cfg) (q p : Bool) (many : Bool) (s : St) (hI : Inv cf q p s) (hh : s.hasCache = true) :
+    wp (execNoFlush cf many)
+      (fun _ s' => Inv cf q p s' ∧ s'.hasCache = true ∧ s'.cache.inTx = true ∧ s'.cache.conn.isSome = true ∧
+                   s'.cache.immediate = true ∧ s'.cache.pending = s.cache.pending)
+      (fun _ s' => (Inv cf q p s' ∧ s'.hasCache = true ∧ s'.cache.immediate = true ∧ s'.cache.pending = s.cache.pending) ∧ q = false) s := by
+  simp only [execNoFlush, getCache, wp_bind, wp_getS, wp_ite, wp_modS, wp_modC, wp_pure, hh]
+  simp only [Bool.not_true, Bool.false_eq_true, if_false, wp_pure]
+  refine wp_mono (spec_prepareCore cf q p _ ?_ (by simpa using hh)) ?_ ?_
+  · obtain ⟨hG, hl, htx, hcp, hdead, hdirty, hddl⟩ := hI
+    simp_all [Inv, CInv, G]
+  · rintro con s1 ⟨hI1, ⟨hk1, hk2, hk3⟩, hc1, hP1⟩
+    refine wp_mono (spec_execTail cf q p con .write many s1 hI1 hk1 (by simp [hc1]) hP1) ?_ ?_
+    · rintro _ s2 ⟨hI2, ⟨hj1, hj2, hj3⟩, hc2, hP2⟩
+      simp_all
+    · rintro _ s2 ⟨⟨hI2, ⟨hj1, hj2, hj3⟩⟩, hq⟩
+      simp_all
+  · rintro _ s1 ⟨⟨hI1, ⟨hk1, hk2, hk3⟩⟩, hq⟩
+    simp_all
+
+theorem spec_flushLoop (cf : Cfg) (q p : Bool) (ws : List Bool) : ∀ (s : St), Inv cf q p s → s.hasCache = true →
+    s.cache.immediate = true →
+    wp (flushLoop cf ws)
+      (fun _ s' => Inv cf q p s' ∧ s'.hasCache = true ∧ s'.cache.immediate = true ∧
+                   ((ws = [] ∧ s' = s) ∨ (s'.cache.inTx = true ∧ s'.cache.conn.isSome = true ∧ s'.cache.pending = [])))
+      (fun _ s' => (Inv cf q p s' ∧ s'.hasCache = true ∧ s'.cache.immediate = true) ∧ q = false) s := by
+  induction ws with
+  | nil => intro s hI hh himm; simp_all [flushLoop]
+  | cons w rest ih =>
+    intro s hI hh himm
+    simp only [flushLoop, wp_bind, wp_modC]
+    refine wp_mono (spec_execNoFlush cf q p w s hI hh) ?_ ?_
+    · intro _ s1 ⟨hI1, hh1, hin1, hc1, him1, hp1⟩
+      refine wp_mono (ih _ ?_ hh1 him1) ?_ ?_
+      · obtain ⟨hG, hl, htx, hcp, hdead, hdirty, hddl⟩ := hI1
+        simp_all [Inv, CInv, G]
+      · intro _ s2 ⟨hI2, hh2, him2, hcase⟩
+        refine ⟨hI2, hh2, him2, .inr ?_⟩
+        rcases hcase with ⟨hr, rfl⟩ | h
+        · simp_all
+        · exact h
+      · intro _ s2 h; exact h
+    · intro _ s1 ⟨⟨hI1, hh1, him1, _⟩, hq⟩; exact ⟨⟨hI1, hh1, him1⟩, hq⟩
+
+/-- "a cache that wants a transaction has one" (what `prepare_connection_for_query_execution` establishes) -/
+def TxReady (s : St) : Prop := s.cache.immediate = true → s.cache.inTx = true
+
+theorem spec_cacheFlush (cf : Cfg) (q p : Bool) (s : St) (hI : Inv cf q p s) (hh : s.hasCache = true) :
+    wp (cacheFlush cf)
+      (fun _ s' => Inv cf q p s' ∧ s'.hasCache = true ∧ (s.cache.inTx = true → s'.cache.inTx = true) ∧
+                   (s.cache.pending ≠ [] → s'.cache.inTx = true ∧ s'.cache.conn.isSome = true) ∧
+                   (s.cache.conn.isSome = true → s'.cache.conn.isSome = true) ∧ (TxReady s → TxReady s'))
+      (fun _ s' => (Inv cf q p s' ∧ s'.hasCache = true) ∧ q = false) s := by
+  simp only [cacheFlush, wp_bind, wp_getS, wp_modC, wp_tryFinally, wp_ite, wp_pure]
+  refine wp_mono (spec_flushLoop cf q p s.cache.pending _ ?_ (by simpa using hh) (by simp)) ?_ ?_
+  · obtain ⟨hG, hl, htx, hcp, hdead, hdirty, hddl⟩ := hI
+    simp_all [Inv, CInv, G]
+  · rintro _ s1 ⟨hI1, hh1, him1, hcase⟩
+    obtain ⟨hG1, hl1, htx1, hcp1, hdead1, hdirty1, hddl1⟩ := hI1
+    obtain ⟨hG, hl, htx, hcp, hdead, hdirty, hddl⟩ := hI
+    rcases hcase with ⟨hnil, rfl⟩ | ⟨hin1, hc1, hp1⟩
+    · cases hin : s.cache.inTx <;> simp_all [Inv, CInv, G, TxReady]
+    · simp_all [Inv, CInv, G, TxReady]
+  · rintro _ s1 ⟨⟨hI1, hh1, him1⟩, hq⟩
+    obtain ⟨hG1, hl1, htx1, hcp1, hdead1, hdirty1, hddl1⟩ := hI1
+    obtain ⟨hG, hl, htx, hcp, hdead, hdirty, hddl⟩ := hI
+    cases hin : s1.cache.inTx <;> simp_all [Inv, CInv, G]
+
+theorem spec_prepare (cf : Cfg) (q p : Bool) (s : St) (hI : Inv cf q p s) (hh : s.hasCache = true) :
+    wp (prepare cf)
+      (fun _ s' => Inv cf q p s' ∧ s'.hasCache = true ∧ s'.cache.conn.isSome = true ∧ TxReady s' ∧
+                   (s.cache.immediate = true → s'.cache.inTx = true))
+      (fun _ s' => (Inv cf q p s' ∧ s'.hasCache = true) ∧ q = false) s := by
+  simp only [prepare, wp_bind, wp_getS, wp_ite, wp_pure]
+  refine wp_mono (spec_prepareCore cf q p s hI hh) ?_ ?_
+  · rintro con s1 ⟨hI1, ⟨hk1, hk2, hk3⟩, hc1, hP1⟩
+    split
+    · refine wp_mono (spec_cacheFlush cf q p s1 hI1 hk1) ?_ ?_
+      · rintro _ s2 ⟨hI2, hh2, hin2, hpend2, hc2, hP2⟩
+        simp_all [TxReady]
+      · rintro _ s2 ⟨⟨hI2, hh2⟩, hq⟩; simp_all
+    · simp_all [TxReady]
+  · rintro _ s1 ⟨⟨hI1, ⟨hk1, hk2, hk3⟩⟩, hq⟩; simp_all
+
+theorem spec_execSql (cf : Cfg) (q p : Bool) (start many : Bool) (s : St) (hwf : cf.WF) (hI : Inv cf q p s) :
+    wp (execSql cf start many)
+      (fun _ s' => Inv cf q p s' ∧ s'.hasCache = true)
+      (fun _ s' => Inv cf q p s' ∧ q = false) s := by
+  simp only [execSql, wp_bind]
+  refine wp_mono (spec_getCache cf q p s hwf hI) ?_ (by intro _ _ h; exact h.elim)
+  rintro _ s1 ⟨hI1, hh1, -, -⟩
+  have hI1' : Inv cf q p { s1 with cache := { s1.cache with immediate := true } } := by
+    obtain ⟨hG1, hl1, htx1, hcp1, hdead1, hdirty1, hddl1⟩ := hI1
+    simp_all [Inv, CInv, G]
+  cases start <;> simp only [wp_ite, wp_modC, wp_pure, wp_bind, Bool.false_eq_true, if_false, if_true]
+  · refine wp_mono (spec_prepare cf q p s1 hI1 hh1) ?_ ?_
+    · rintro con s2 ⟨hI2, hh2, hc2, hP2, -⟩
+      refine wp_mono (spec_execTail cf q p con _ many s2 hI2 hh2 hc2 hP2) ?_ ?_
+      · rintro _ s3 ⟨hI3, ⟨hj1, hj2, hj3⟩, -, -⟩; exact ⟨hI3, hj1⟩
+      · rintro _ s3 ⟨⟨hI3, -⟩, hq⟩; exact ⟨hI3, hq⟩
+    · rintro _ s2 ⟨⟨hI2, hh2⟩, hq⟩; exact ⟨hI2, hq⟩
+  · refine wp_mono (spec_prepare cf q p _ hI1' (by simpa using hh1)) ?_ ?_
+    · rintro con s2 ⟨hI2, hh2, hc2, hP2, -⟩
+      refine wp_mono (spec_execTail cf q p con _ many s2 hI2 hh2 hc2 hP2) ?_ ?_
+      · rintro _ s3 ⟨hI3, ⟨hj1, hj2, hj3⟩, -, -⟩; exact ⟨hI3, hj1⟩
+      · rintro _ s3 ⟨⟨hI3, -⟩, hq⟩; exact ⟨hI3, hq⟩
+    · rintro _ s2 ⟨⟨hI2, hh2⟩, hq⟩; exact ⟨hI2, hq⟩
+
+/-- `SessionCache.close`: however it ends, the cache is gone, nothing is locked, the connection is pooled-and-idle or closed -/
+theorem spec_cacheClose (cf : Cfg) (q p : Bool) (rb : Bool) (s : St) (hI : Inv cf q p s)
+    (hrb : rb = false → s.cache.inTx = false) :
+    wp (cacheClose cf rb)
+      (fun _ s' => Inv cf q p s' ∧ s'.hasCache = false)
+      (fun _ s' => (Inv cf q p s' ∧ s'.hasCache = false) ∧ q = false) s := by
+  obtain ⟨hG, hl, htx, hcp, hdead, hdirty, hddl⟩ := hI
+  simp only [cacheClose, wp_bind, wp_getS, wp_ite, wp_assertM, wp_modS, wp_modC, wp_pure, wp_tryCatch, wp_raise]
+  cases hconn : s.cache.conn with
+  | none =>
+    have hin : s.cache.inTx = false := by cases h : s.cache.inTx <;> simp_all
+    have hd : s.dirty = false := by cases h : s.dirty <;> simp_all
+    cases rb <;> simp_all [Inv, CInv, G]
+  | some con =>
+    have hpc := hcp con hconn
+    cases rb with
+    | true =>
+      simp only [Bool.not_true, Bool.false_eq_true, if_false, if_true, wp_pure, wp_bind, wp_modC, wp_tryCatch, wp_raise, wp_ite]
+      refine wp_mono (spec_provRollback cf q p con _ (by simpa [G] using hG) (by simpa using hl)) ?_ ?_
+      · rintro _ s2 ⟨hG2, hl2, hin2, ⟨hc2, -, -, -⟩, hd2, hpc2, hh2⟩
+        refine wp_mono (spec_provRelease cf q p con s2 hG2 (by simpa [hpc] using hpc2) hin2 hl2) ?_ ?_
+        · rintro _ s3 ⟨hG3, hl3, hin3, ⟨hc3, -, -, -⟩, hd3, hh3, -⟩
+          simp_all [Inv, CInv]
+        · rintro _ s3 ⟨⟨hG3, hl3, hin3, ⟨hc3, -, -, -⟩, hd3, hh3, -⟩, hq⟩
+          simp_all [Inv, CInv]
+      · rintro _ s2 ⟨⟨hG2, hl2, hin2, ⟨hc2, -, -, -⟩, hd2, hpc2, hh2⟩, hq⟩
+        refine wp_mono (spec_provDrop cf q p con s2 hG2 (by rw [hl2, hin2]) (by simpa [hpc] using hpc2)) ?_ ?_
+        · rintro _ s3 ⟨hG3, hl3, hin3, ⟨hc3, -, -, -⟩, hd3, hpc3, hh3⟩
+          simp_all [Inv, CInv]
+        · rintro _ s3 ⟨⟨hG3, hl3, hin3, ⟨hc3, -, -, -⟩, hd3, hpc3, hh3⟩, -⟩
+          simp_all [Inv, CInv]
+    | false =>
+      have hin := hrb rfl
+      simp only [Bool.not_false, if_true, hin, decide_true, Bool.false_eq_true, if_false, wp_pure, wp_bind, wp_modS, wp_modC]
+      refine wp_mono (spec_provRelease cf q p con _ (by simpa [G] using hG) (by simpa using hpc) (by simpa using hin)
+        (by simpa [hin] using hl)) ?_ ?_
+      · rintro _ s3 ⟨hG3, hl3, hin3, ⟨hc3, -, -, -⟩, hd3, hh3, -⟩
+        simp_all [Inv, CInv]
+      · rintro _ s3 ⟨⟨hG3, hl3, hin3, ⟨hc3, -, -, -⟩, hd3, hh3, -⟩, hq⟩
+        simp_all [Inv, CInv]
+
+/-- `SessionCache.commit`: either committed (no transaction, lock free) or the cache has been closed -/
+theorem spec_cacheCommit (cf : Cfg) (q p : Bool) (s : St) (hI : Inv cf q p s) (hh : s.hasCache = true) :
+    wp (cacheCommit cf)
+      (fun _ s' => Inv cf q p s' ∧ s'.hasCache = true ∧ s'.cache.inTx = false)
+      (fun _ s' => (Inv cf q p s' ∧ s'.hasCache = false) ∧ q = false) s := by
+  simp only [cacheCommit, wp_tryCatch, wp_bind, wp_getS, wp_ite, wp_pure, wp_raise, wp_modC]
+  -- the handler: `cache.rollback(); raise`
+  have handler : ∀ (s1 : St), Inv cf q p s1 → q = false →
+      wp (cacheClose cf true) (fun _ s' => (Inv cf q p s' ∧ s'.hasCache = false) ∧ q = false)
+        (fun _ s' => (Inv cf q p s' ∧ s'.hasCache = false) ∧ q = false) s1 := by
+    intro s1 hI1 hq
+    refine wp_mono (spec_cacheClose cf q p true s1 hI1 (by simp)) ?_ ?_
+    · intro _ s' h; exact ⟨h, hq⟩
+    · intro _ s' h; exact h
+  -- after the flush
+  have rest : ∀ (s1 : St), Inv cf q p s1 → s1.hasCache = true →
+      wp (do
+          let s ← getS
+          if s.cache.inTx then
+            match s.cache.conn with
+            | none => assertM false
+            | some con => provCommit cf con
+          modC (fun c => { c with immediate := true }))
+        (fun _ s' => Inv cf q p s' ∧ s'.hasCache = true ∧ s'.cache.inTx = false)
+        (fun _ s' => wp (cacheClose cf true) (fun _ s' => (Inv cf q p s' ∧ s'.hasCache = false) ∧ q = false)
+          (fun _ s' => (Inv cf q p s' ∧ s'.hasCache = false) ∧ q = false) s') s1 := by
+    intro s1 hI1 hh1
+    obtain ⟨hG, hl, htx, hcp, hdead, hdirty, hddl⟩ := hI1
+    simp only [wp_bind, wp_getS, wp_ite, wp_modC, wp_pure]
+    cases hin : s1.cache.inTx with
+    | false => simp_all [Inv, CInv, G]
+    | true =>
+      obtain ⟨con, hconn⟩ := Option.isSome_iff_exists.mp (htx hin)
+      simp only [hconn, if_true, wp_bind, wp_modC]
+      refine wp_mono (spec_provCommit cf q p con s1 hG hl) ?_ ?_
+      · rintro _ s2 ⟨hG2, hl2, hin2, ⟨hc2, hi2, -, -⟩, hd2, hpc2, hh2⟩
+        simp_all [Inv, CInv, G]
+      · rintro _ s2 ⟨⟨hG2, hl2, hin2, ⟨hc2, hi2, -, -⟩, hd2, hpc2, hh2⟩, hq⟩
+        refine handler s2 ?_ hq
+        have : s2.dirty = true → s2.cache.conn.isSome = true := by intro h; simp_all
+        simp_all [Inv, CInv]
+  simp only [wp_tryCatch, wp_bind, wp_getS, wp_ite, wp_pure, wp_raise, wp_modC] at rest
+  split
+  · refine wp_mono (spec_cacheFlush cf q p s hI hh) ?_ ?_
+    · rintro _ s1 ⟨hI1, hh1, -⟩
+      exact rest s1 hI1 hh1
+    · rintro _ s1 ⟨⟨hI1, hh1⟩, hq⟩
+      exact handler s1 hI1 hq
+  · exact rest s hI hh
+
+/-- `core.rollback()` -/
+theorem spec_coreRollback (cf : Cfg) (q p : Bool) (s : St) (hI : Inv cf q p s) :
+    wp (coreRollback cf)
+      (fun _ s' => Inv cf q p s' ∧ s'.hasCache = false)
+      (fun _ s' => (Inv cf q p s' ∧ s'.hasCache = false) ∧ q = false) s := by
+  simp only [coreRollback, wp_bind, wp_getS, wp_ite, wp_tryCatch, wp_raise, wp_pure]
+  cases hh : s.hasCache with
+  | false => simp_all
+  | true =>
+    simp only [if_true]
+    exact wp_mono (spec_cacheClose cf q p true s hI (by simp)) (fun _ _ h => h) (fun _ _ h => h)
+
+/-- `core.commit()` -/
+theorem spec_coreCommit (cf : Cfg) (q p : Bool) (s : St) (hI : Inv cf q p s) :
+    wp (coreCommit cf)
+      (fun _ s' => Inv cf q p s' ∧ (s'.hasCache = true → s'.cache.inTx = false))
+      (fun _ s' => (Inv cf q p s' ∧ s'.hasCache = false) ∧ q = false) s := by
+  simp only [coreCommit, wp_bind, wp_getS, wp_ite, wp_tryCatch, wp_raise, wp_pure]
+  cases hh : s.hasCache with
+  | false => simp_all
+  | true =>
+    simp only [if_true]
+    refine wp_mono (spec_cacheFlush cf q p s hI hh) ?_ ?_
+    · rintro _ s1 ⟨hI1, hh1, -⟩
+      refine wp_mono (spec_cacheCommit cf q p s1 hI1 hh1) ?_ ?_
+      · rintro _ s2 ⟨hI2, hh2, hin2⟩; exact ⟨hI2, fun _ => hin2⟩
+      · intro _ s2 h; exact h
+    · rintro _ s1 ⟨⟨hI1, hh1⟩, hq⟩
+      refine wp_mono (spec_coreRollback cf q p s1 hI1) ?_ ?_
+      · intro _ s2 h; exact ⟨h, hq⟩
+      · intro _ s2 h; exact h
+
+theorem spec_getConnection (cf : Cfg) (q p : Bool) (s : St) (hwf : cf.WF) (hI : Inv cf q p s) :
+    wp (getConnection cf) (fun _ s' => Inv cf q p s') (fun _ s' => Inv cf q p s' ∧ q = false) s := by
+  simp only [getConnection, wp_bind]
+  refine wp_mono (spec_getCache cf q p s hwf hI) ?_ (by intro _ _ h; exact h.elim)
+  rintro _ s1 ⟨hI1, hh1, -, -⟩
+  obtain ⟨hG, hl, htx, hcp, hdead, hdirty, hddl⟩ := hI1
+  simp only [wp_getS, wp_ite, wp_bind, wp_modC, wp_assertM, wp_pure]
+  cases hin : s1.cache.inTx with
+  | true =>
+    have := htx hin
+    cases hc : s1.cache.conn <;> simp_all [Inv, CInv]
+  | false =>
+    simp only [Bool.not_false, if_true]
+    refine wp_mono (spec_prepare cf q p _ (by simp_all [Inv, CInv, G]) (by simpa using hh1)) ?_ ?_
+    · rintro _ s2 ⟨hI2, hh2, hc2, hP2, hin2⟩
+      obtain ⟨hG2, hl2, htx2, hcp2, hdead2, hdirty2, hddl2⟩ := hI2
+      have hin2' := hin2 rfl
+      cases hc : s2.cache.conn <;> simp_all [Inv, CInv, G]
+    · rintro _ s2 ⟨⟨hI2, hh2⟩, hq⟩; exact ⟨hI2, hq⟩
+
+theorem spec_runOp (cf : Cfg) (q p : Bool) (op : Op) (s : St) (hwf : cf.WF) (hI : Inv cf q p s) :
+    wp (runOp cf op) (fun _ s' => Inv cf q p s') (fun _ s' => Inv cf q p s' ∧ q = false) s := by
+  cases op with
+  | query => exact wp_mono (spec_execSql cf q p false false s hwf hI) (fun _ _ h => h.1) (fun _ _ h => h)
+  | write many => exact wp_mono (spec_execSql cf q p true many s hwf hI) (fun _ _ h => h.1) (fun _ _ h => h)
+  | modify ws =>
+    simp only [runOp, wp_bind, wp_modC]
+    refine wp_mono (spec_getCache cf q p s hwf hI) ?_ (by intro _ _ h; exact h.elim)
+    rintro _ s1 ⟨⟨hG, hl, htx, hcp, hdead, hdirty, hddl⟩, hh1, -, -⟩
+    simp_all [Inv, CInv, G]
+  | flush =>
+    simp only [runOp, wp_bind, wp_getS, wp_ite, wp_pure]
+    cases hh : s.hasCache with
+    | false => simpa using hI
+    | true => exact wp_mono (spec_cacheFlush cf q p s hI hh) (fun _ _ h => h.1) (fun _ _ h => ⟨h.1.1, h.2⟩)
+  | commit => exact wp_mono (spec_coreCommit cf q p s hI) (fun _ _ h => h.1) (fun _ _ h => ⟨h.1.1, h.2⟩)
+  | rollback => exact wp_mono (spec_coreRollback cf q p s hI) (fun _ _ h => h.1) (fun _ _ h => ⟨h.1.1, h.2⟩)
+  | getConnection => exact spec_getConnection cf q p s hwf hI
+
+theorem spec_runBody (cf : Cfg) (q p : Bool) (hwf : cf.WF) (prog : List (Op × Bool)) : ∀ (s : St), Inv cf q p s →
+    wp (runBody cf prog) (fun _ s' => Inv cf q p s') (fun _ s' => Inv cf q p s' ∧ q = false) s := by
+  induction prog with
+  | nil => intro s hI; simpa [runBody] using hI
+  | cons oc rest ih =>
+    intro s hI
+    obtain ⟨op, caught⟩ := oc
+    simp only [runBody, wp_bind, wp_ite, wp_tryCatch, wp_pure]
+    cases caught with
+    | true =>
+      simp only [if_true]
+      refine wp_mono (spec_runOp cf q p op s hwf hI) ?_ ?_
+      · intro _ s1 h1; exact ih s1 h1
+      · intro _ s1 h1; exact ih s1 h1.1
+    | false =>
+      simp only [Bool.false_eq_true, if_false]
+      refine wp_mono (spec_runOp cf q p op s hwf hI) ?_ ?_
+      · intro _ s1 h1; exact ih s1 h1
+      · intro _ s1 h1; exact h1
+
+/-- `db_session.__exit__` -/
+theorem spec_exitSession (cf : Cfg) (q p : Bool) (r : Except Exc Unit) (s : St) (hI : Inv cf q p s) :
+    wp (exitSession cf r)
+      (fun _ s' => Inv cf q p s' ∧ s'.hasCache = false)
+      (fun _ s' => Inv cf q p s' ∧ s'.hasCache = false ∧ (q = false ∨ ∃ e, r = .error e)) s := by
+  cases r with
+  | ok u =>
+    simp only [exitSession, wp_bind, wp_getS, wp_ite, wp_pure]
+    refine wp_mono (spec_coreCommit cf q p s hI) ?_ ?_
+    · rintro _ s1 ⟨hI1, hin1⟩
+      cases hh : s1.hasCache with
+      | false => simp_all
+      | true =>
+        simp only [if_true]
+        refine wp_mono (spec_cacheClose cf q p false s1 hI1 (fun _ => hin1 hh)) ?_ ?_
+        · intro _ s2 h; exact h
+        · intro _ s2 h; exact ⟨h.1.1, h.1.2, .inl h.2⟩
+    · intro _ s1 h; exact ⟨h.1.1, h.1.2, .inl h.2⟩
+  | error e =>
+    simp only [exitSession, wp_bind, wp_tryCatch, wp_pure, wp_raise]
+    refine wp_mono (spec_coreRollback cf q p s hI) ?_ ?_
+    · intro _ s1 h; exact ⟨h.1, h.2, .inr ⟨e, rfl⟩⟩
+    · intro _ s1 h; exact ⟨h.1.1, h.1.2, .inr ⟨e, rfl⟩⟩
+
+/-- `with db_session: …` — the central statement: whatever the body does and whichever DB-API calls fail, the session
+    ends with the invariant re-established and its cache gone; if no call fails and the body does not raise, it ends normally -/
+theorem spec_dbSession (cf : Cfg) (q p : Bool) (hwf : cf.WF) (prog : List (Op × Bool)) (br : Bool) (s : St)
+    (hI : Inv cf q p s) :
+    wp (dbSession cf prog br)
+      (fun _ s' => Inv cf q p s' ∧ s'.hasCache = false)
+      (fun _ s' => Inv cf q p s' ∧ s'.hasCache = false ∧ (q = false ∨ br = true)) s := by
+  have hbody : wp (do runBody cf prog; if br then raise .body : M Unit)
+      (fun _ s' => Inv cf q p s' ∧ br = false) (fun _ s' => Inv cf q p s' ∧ (q = false ∨ br = true)) s := by
+    simp only [wp_bind, wp_ite, wp_raise, wp_pure]
+    refine wp_mono (spec_runBody cf q p hwf prog s hI) ?_ ?_
+    · intro _ s1 h1; cases br <;> simp_all
+    · intro _ s1 h1; exact ⟨h1.1, .inl h1.2⟩
+  rcases hrun : (do runBody cf prog; if br then raise .body : M Unit) s with ⟨r, s1⟩
+  have heq : dbSession cf prog br s = exitSession cf r s1 := by
+    unfold dbSession; rw [hrun]
+  have hw : wp (dbSession cf prog br) (fun _ s' => Inv cf q p s' ∧ s'.hasCache = false)
+      (fun _ s' => Inv cf q p s' ∧ s'.hasCache = false ∧ (q = false ∨ br = true)) s
+      = wp (exitSession cf r) (fun _ s' => Inv cf q p s' ∧ s'.hasCache = false)
+      (fun _ s' => Inv cf q p s' ∧ s'.hasCache = false ∧ (q = false ∨ br = true)) s1 := by
+    unfold wp; rw [heq]
+  rw [hw]
+  unfold wp at hbody
+  rw [hrun] at hbody
+  cases r with
+  | ok u =>
+    refine wp_mono (spec_exitSession cf q p _ s1 hbody.1) ?_ ?_
+    · intro _ s2 h; exact h
+    · intro _ s2 h
+      refine ⟨h.1, h.2.1, ?_⟩
+      rcases h.2.2 with h | ⟨e, h⟩
+      · exact .inl h
+      · cases h
+  | error e =>
+    refine wp_mono (spec_exitSession cf q p _ s1 hbody.1) ?_ ?_
+    · intro _ s2 h; exact h
+    · intro _ s2 h; exact ⟨h.1, h.2.1, hbody.2⟩
 
 end PonyVerif.Model.ConnLock
